@@ -605,4 +605,242 @@ theorem total_run (ops : List Op) : TotalInv (run ops) :=
   run_inv (by constructor <;> simp [init, Shared.init, reportedTotal, inflightTotal, residualDrops])
     (fun _ _ _ hi h => step_total hi h) ops
 
+
+/-! ### in-progress values are read inside the snapshot -/
+
+theorem snoc_ind {P : List α → Prop} (h0 : P []) (h1 : ∀ l a, P l → P (l ++ [a])) (l : List α) : P l := by
+  rw [← List.reverse_reverse l]
+  induction l.reverse with
+  | nil => exact h0
+  | cons a r ih => rw [List.reverse_cons]; exact h1 _ _ ih
+
+theorem run_snoc (ops : List Op) (o : Op) : run (ops ++ [o]) = step (run ops) o := by
+  simp [run, List.foldl_append]
+
+/-- `v` is the value of the in-progress counter of `l` in a state of the run in which thread `tid`
+    is a stats() call that has been invoked and has not returned -/
+def Wit (ops : List Op) (tid l v : Nat) : Prop :=
+  ∃ ops₁ ops₂, ops = ops₁ ++ ops₂ ∧ liveSnap (run ops₁) tid ∧ v = (run ops₁).sh.mem (.inprog l)
+
+theorem Wit.snoc {ops : List Op} {tid l v : Nat} (o : Op) (h : Wit ops tid l v) : Wit (ops ++ [o]) tid l v := by
+  obtain ⟨a, b, rfl, h1, h2⟩ := h
+  exact ⟨a, b ++ [o], by simp, h1, h2⟩
+
+/-- in-progress values a running stats() holds in local variables -/
+def pcInp : Pc → List (Nat × Nat)
+  | .lErr l _ i => [(l, i)]
+  | .lIss l _ i _ => [(l, i)]
+  | .lLoads lr => [(lr.loc, lr.inprog)]
+  | .lLoad lr _ => [(lr.loc, lr.inprog)]
+  | _ => []
+
+theorem act_wit {sh t ch sh' t' r} (Q : Nat → Nat → Prop) (h : act sh t ch = some (sh', t', r))
+    (h1 : ∀ e ∈ pcInp t.pc, Q e.1 e.2) (h2 : ∀ lr ∈ t.rep.locs, Q lr.loc lr.inprog)
+    (h3 : t.pc.isSnap = true → ∀ l, Q l (sh.mem (.inprog l))) (h4 : t.rep.tid = t.tid) :
+    (∀ e ∈ pcInp t'.pc, Q e.1 e.2) ∧ (∀ lr ∈ t'.rep.locs, Q lr.loc lr.inprog) ∧ t'.rep.tid = t'.tid ∧
+    (∀ r', r = some r' → r'.tid = t.tid ∧ ∀ lr ∈ r'.locs, Q lr.loc lr.inprog) := by
+  act_cases h <;> simp_all [pcInp, Pc.isSnap, Report.empty] <;> (try split) <;> (try simp_all) <;>
+    (try (rintro lr (hl | rfl) <;> first | exact h2 lr hl | exact h1))
+
+structure WitInv (ops : List Op) (s : State) : Prop where
+  pc : ∀ t ∈ s.threads, ∀ e ∈ pcInp t.pc, Wit ops t.tid e.1 e.2
+  rep : ∀ t ∈ s.threads, ∀ lr ∈ t.rep.locs, Wit ops t.tid lr.loc lr.inprog
+  reps : ∀ r ∈ s.reports, ∀ lr ∈ r.locs, Wit ops r.tid lr.loc lr.inprog
+  tid : ∀ t ∈ s.threads, t.rep.tid = t.tid
+
+theorem WitInv.snoc {ops : List Op} {s : State} (o : Op) (h : WitInv ops s) : WitInv (ops ++ [o]) s :=
+  ⟨fun t ht e he => (h.pc t ht e he).snoc o, fun t ht lr hl => (h.rep t ht lr hl).snoc o,
+   fun r hr lr hl => (h.reps r hr lr hl).snoc o, h.tid⟩
+
+theorem wit_run (ops : List Op) : WitInv ops (run ops) := by
+  induction ops using snoc_ind with
+  | h0 => constructor <;> simp [run, init]
+  | h1 ops o ih =>
+    rw [run_snoc]
+    have ih' := ih.snoc o
+    unfold step
+    cases hs : step? (run ops) o with
+    | none => simpa using ih'
+    | some s' =>
+      simp only [Option.getD_some]
+      cases o with
+      | spawn tid c =>
+        obtain ⟨_, rfl⟩ := step?_spawn hs
+        constructor
+        · intro t ht
+          simp only [List.mem_append, List.mem_singleton] at ht
+          rcases ht with ht | rfl
+          · exact ih'.pc t ht
+          · cases c <;> simp [Call.entry, pcInp]
+        · intro t ht
+          simp only [List.mem_append, List.mem_singleton] at ht
+          rcases ht with ht | rfl
+          · exact ih'.rep t ht
+          · simp [Report.empty]
+        · exact ih'.reps
+        · intro t ht
+          simp only [List.mem_append, List.mem_singleton] at ht
+          rcases ht with ht | rfl
+          · exact ih'.tid t ht
+          · rfl
+      | step tid ch =>
+        obtain ⟨t, sh', t', r, hf, ha, rfl⟩ := step?_step hs
+        have htm := (findT_some hf).1
+        have htid : t.tid = tid := (findT_some hf).2
+        have hnew : t.pc.isSnap = true → ∀ l, Wit (ops ++ [.step tid ch]) t.tid l ((run ops).sh.mem (.inprog l)) := by
+          intro hsnap l
+          exact ⟨ops, [.step tid ch], rfl, ⟨t, by rw [htid]; exact hf, hsnap⟩, rfl⟩
+        have hw := act_wit (fun l v => Wit (ops ++ [.step tid ch]) t.tid l v) ha
+          (ih'.pc t htm) (ih'.rep t htm) hnew (ih'.tid t htm)
+        have htid' := act_tid ha
+        constructor
+        · intro x hx
+          rcases mem_replaceT hx with rfl | hx
+          · rw [htid']; exact hw.1
+          · exact ih'.pc x hx
+        · intro x hx
+          rcases mem_replaceT hx with rfl | hx
+          · rw [htid']; exact hw.2.1
+          · exact ih'.rep x hx
+        · intro r' hr'
+          simp only [List.mem_append] at hr'
+          rcases hr' with hr' | hr'
+          · exact ih'.reps r' hr'
+          · cases r with
+            | none => simp at hr'
+            | some r0 =>
+              simp at hr'
+              subst hr'
+              obtain ⟨e1, e2⟩ := hw.2.2.2 r' rfl
+              rw [e1]; exact e2
+        · intro x hx
+          rcases mem_replaceT hx with rfl | hx
+          · exact hw.2.2.1
+          · exact ih'.tid x hx
+
+/-! ### calls on unknown localities -/
+
+/-- CallFinished / CallServerLoad are only invoked for a locality that has an entry (i.e. after a
+    CallStarted for it has begun) -/
+def wfOp (s : State) : Op → Prop
+  | .spawn _ (.finish l _) => l ∈ s.sh.locs
+  | .spawn _ (.load l _ _) => l ∈ s.sh.locs
+  | _ => True
+
+def WellFormed (ops : List Op) : Prop := ∀ ops₁ o ops₂, ops = ops₁ ++ o :: ops₂ → wfOp (run ops₁) o
+
+structure AbInv (s : State) : Prop where
+  zero : ∀ k, s.sh.abandoned k = 0
+  pcs : ∀ t ∈ s.threads, ∀ l, ((∃ ok, t.pc = .finE l ok) ∨ (∃ n v, t.pc = .loadE l n v)) → l ∈ s.sh.locs
+
+theorem act_ab {sh t ch sh' t' r} (h : act sh t ch = some (sh', t', r))
+    (hp : ∀ l, ((∃ ok, t.pc = .finE l ok) ∨ (∃ n v, t.pc = .loadE l n v)) → l ∈ sh.locs) :
+    sh'.abandoned = sh.abandoned ∧ (∀ l, l ∈ sh.locs → l ∈ sh'.locs) ∧
+    (∀ l, ((∃ ok, t'.pc = .finE l ok) ∨ (∃ n v, t'.pc = .loadE l n v)) → l ∈ sh'.locs) := by
+  act_cases h <;> simp_all [Shared.add1, Shared.clear, mem_insertNew]
+
+theorem ab_run (ops : List Op) (hwf : WellFormed ops) : AbInv (run ops) := by
+  induction ops using snoc_ind with
+  | h0 => constructor <;> simp [run, init, Shared.init]
+  | h1 ops o ih =>
+    have hwf0 : WellFormed ops := by
+      intro a x b e
+      exact hwf a x (b ++ [o]) (by simp [e])
+    have hwo : wfOp (run ops) o := hwf ops o [] (by simp)
+    have ih := ih hwf0
+    rw [run_snoc]
+    unfold step
+    cases hs : step? (run ops) o with
+    | none => simpa using ih
+    | some s' =>
+      simp only [Option.getD_some]
+      cases o with
+      | spawn tid c =>
+        obtain ⟨_, rfl⟩ := step?_spawn hs
+        constructor
+        · simpa using ih.zero
+        · intro t ht l hl
+          simp only [List.mem_append, List.mem_singleton] at ht
+          rcases ht with ht | rfl
+          · simpa using ih.pcs t ht l hl
+          · cases c <;> simp_all [Call.entry, wfOp]
+      | step tid ch =>
+        obtain ⟨t, sh', t', r, hf, ha, rfl⟩ := step?_step hs
+        have htm := (findT_some hf).1
+        obtain ⟨e1, e2, e3⟩ := act_ab ha (ih.pcs t htm)
+        constructor
+        · intro k; simp only [e1]; exact ih.zero k
+        · intro x hx l hl
+          rcases mem_replaceT hx with rfl | hx
+          · exact e3 l hl
+          · exact e2 l (ih.pcs x hx l hl)
+
+
+/-! ### increments / decrements of the in-progress counter versus calls -/
+
+def pendingInc (p : Pc) (l : Nat) : Nat :=
+  match p with
+  | .startE l' | .startA l' => if l' = l then 1 else 0
+  | _ => 0
+
+def pendingDec (p : Pc) (l : Nat) : Nat :=
+  match p with
+  | .finE l' _ | .finA l' _ => if l' = l then 1 else 0
+  | _ => 0
+
+def CountInv (s : State) : Prop :=
+  ∀ l, s.sh.applied (.inprog l) + sumBy (fun t => pendingInc t.pc l) s.threads = s.sh.invoked (.issued l) ∧
+    s.sh.decs l + sumBy (fun t => pendingDec t.pc l) s.threads + s.sh.abandoned (.succ l) + s.sh.abandoned (.err l)
+      = s.sh.invoked (.succ l) + s.sh.invoked (.err l)
+
+theorem act_count {sh t ch sh' t' r} (l : Nat) (h : act sh t ch = some (sh', t', r)) :
+    sh'.applied (.inprog l) + pendingInc t'.pc l = sh.applied (.inprog l) + pendingInc t.pc l ∧
+    sh'.decs l + pendingDec t'.pc l + sh'.abandoned (.succ l) + sh'.abandoned (.err l)
+      = sh.decs l + pendingDec t.pc l + sh.abandoned (.succ l) + sh.abandoned (.err l) := by
+  act_cases h <;> simp_all [pendingInc, pendingDec, Shared.add1, Shared.clear, upd, updN] <;>
+    (try split) <;> (try split) <;> (try subst_vars) <;> (try simp_all) <;> (try omega)
+
+theorem invoke_count (c : Call) (sh : Shared) (l : Nat) :
+    (c.invoke sh).invoked (.issued l) = sh.invoked (.issued l) + pendingInc c.entry l ∧
+    (c.invoke sh).invoked (.succ l) + (c.invoke sh).invoked (.err l)
+      = sh.invoked (.succ l) + sh.invoked (.err l) + pendingDec c.entry l := by
+  cases c <;> simp [Call.invoke, Call.entry, pendingInc, pendingDec, upd] <;> (try split) <;> (try split) <;>
+    (try split) <;> (try subst_vars) <;> (try simp_all) <;> (try omega)
+
+theorem step_count {s s' : State} {o : Op} (hi : CountInv s) (h : step? s o = some s') : CountInv s' := by
+  cases o with
+  | spawn tid c =>
+    obtain ⟨_, rfl⟩ := step?_spawn h
+    intro l
+    have := hi l
+    have hv := invoke_count c s.sh l
+    simp only [sumBy_append, sumBy_cons, sumBy_nil, invoke_applied, invoke_abandoned, invoke_decs] at *
+    omega
+  | step tid ch =>
+    obtain ⟨t, sh', t', r, hf, ha, rfl⟩ := step?_step h
+    have htid := act_tid ha
+    have hf' : findT s.threads t'.tid = some t := by rw [htid, (findT_some hf).2]; exact hf
+    intro l
+    have h0 := hi l
+    have hl := act_count l ha
+    have hs1 := sumBy_replaceT (fun t => pendingInc t.pc l) hf'
+    have hs2 := sumBy_replaceT (fun t => pendingDec t.pc l) hf'
+    have hv := act_invoked ha
+    simp only [hv] at *
+    omega
+
+theorem count_run (ops : List Op) : CountInv (run ops) :=
+  run_inv (by intro l; simp [init, Shared.init]) (fun _ _ _ hi h => step_count hi h) ops
+
+theorem pendingInc_le (p : Pc) (l : Nat) : pendingInc p l ≤ pending p (.issued l) := by
+  cases p <;> simp [pendingInc, pending] <;> split <;> simp_all
+
+theorem pendingDec_le (p : Pc) (l : Nat) : pendingDec p l ≤ pending p (.succ l) + pending p (.err l) := by
+  cases p <;> simp [pendingDec, pending] <;> (try split) <;> (try split) <;> simp_all
+
+theorem sumBy_le (f g : α → Nat) (l : List α) (h : ∀ a, f a ≤ g a) : sumBy f l ≤ sumBy g l := by
+  induction l with
+  | nil => simp
+  | cons a l ih => simp only [sumBy_cons]; have := h a; omega
+
 end GrpcProofs.Lemmas.LoadStore
